@@ -307,7 +307,9 @@ func runC19Seq(t *testing.T, sc *world.Scenario) *check.Result {
 	defer os.RemoveAll(dir)
 	_ = os.Chmod(dir, 0755)
 	exe := filepath.Join(dir, "cmd.sh")
-	body := fmt.Sprintf("#!/bin/sh\ncase \"$1\" in hang) sleep %.1f;; fail) echo no >&2; exit 3;; esac\necho 7\n", (4 * timeout).Seconds())
+	// every call prints a token of its own ($2); the failing kinds come in a quiet flavour and in one that has
+	// already written (part of) its output when it fails or runs into the deadline
+	body := fmt.Sprintf("#!/bin/sh\ncase \"$1\" in hang) sleep %.1f;; hangout) echo \"$2\"; sleep %.1f;; fail) echo no >&2; exit 3;; failout) echo \"$2\"; echo no >&2; exit 3;; esac\necho \"$2\"\n", (4 * timeout).Seconds(), (4 * timeout).Seconds())
 	if err := os.WriteFile(exe, []byte(body), 0755); err != nil {
 		res.Harness = err.Error()
 		return res
@@ -316,8 +318,10 @@ func runC19Seq(t *testing.T, sc *world.Scenario) *check.Result {
 	r := kernel.NewRand(sc.Seed, "c19seq.calls")
 	margin := 1500 * time.Millisecond
 	hangs := 0
+	prevKind := ""
 	for i := 0; i < n; i++ {
-		kind := kernel.Pick(r, "ok", "ok", "hang", "hang", "fail", "missing")
+		kind := kernel.Pick(r, "ok", "ok", "ok", "hang", "hangout", "fail", "failout", "missing")
+		token := fmt.Sprintf("%d", 100+i)
 		path := exe
 		if kind == "missing" {
 			path = filepath.Join(dir, "nope.sh")
@@ -329,7 +333,7 @@ func runC19Seq(t *testing.T, sc *world.Scenario) *check.Result {
 		done := make(chan outcome, 1)
 		start := time.Now()
 		go func() {
-			out, err := util.SafeCmdExecution(path, []string{kind}, timeout)
+			out, err := util.SafeCmdExecution(path, []string{kind, token}, timeout)
 			done <- outcome{out, err}
 		}()
 		sig := fmt.Sprintf("sequence call=%s", kind)
@@ -344,8 +348,8 @@ func runC19Seq(t *testing.T, sc *world.Scenario) *check.Result {
 					res.Violate("C19", "returns-in-time", "returns-in-time "+sig, i, nil, "call #%d (%s) of a sequence with %d timed-out calls before it returned after %s (bound %s)", i, kind, hangs, el.Round(time.Millisecond), timeout+margin)
 				}
 			}
-			if kind == "ok" && (o.err != nil || o.out != "7") {
-				res.Violate("C19", "output-returned", "output-returned "+sig, i, nil, "call #%d (healthy command, %d timed-out calls before it) returned %q, %v", i, hangs, trunc(o.out, 40), o.err)
+			if kind == "ok" && (o.err != nil || o.out != token) {
+				res.Violate("C19", "output-returned", "output-returned "+sig+" after="+prevKind, i, nil, "call #%d (healthy command printing %q, %d timed-out calls before it, the call before it: %s) returned %q, %v", i, token, hangs, prevKind, trunc(o.out, 40), o.err)
 			}
 			if kind != "ok" && o.err == nil {
 				res.Violate("C19", "error-reported", "error-reported "+sig, i, nil, "call #%d (%s) returned no error (output %q)", i, kind, trunc(o.out, 40))
@@ -357,9 +361,13 @@ func runC19Seq(t *testing.T, sc *world.Scenario) *check.Result {
 			res.Nontrivial = true
 			return res
 		}
-		if kind == "hang" {
+		if kind == "hang" || kind == "hangout" {
 			hangs++
 		}
+		if kind == "ok" && prevKind != "" && prevKind != "ok" {
+			res.Probe("healthy-call-after:" + prevKind)
+		}
+		prevKind = kind
 	}
 	res.ProbeN("timed-out-calls-in-sequences", hangs)
 	res.Events = n
